@@ -11,10 +11,15 @@ c63 == <<<<63, 99>>>>                                   \* one 63-octet label
 l34 == [i \in 1..34 |-> <<1, 100>>]                     \* 34 one-octet labels (ip6.arpa style)
 n255 == <<<<63, 101>>, <<63, 102>>, <<63, 103>>, <<61, 104>>>>     \* 255 octets on the wire, 253 as text
 n127 == [i \in 1..127 |-> <<1, 105>>]                   \* the maximum number of labels (255 octets)
+\* the root name (no labels; "" in libtins' text form) as owner and as record data: the null MX "0 .", a root name server, an SOA whose
+\* responsible-person name is the root
+root == <<>>
 GenInit == MCInit \cup {
   [q |-> <<Q(n255, TA)>>, an |-> <<R(n255, TCNAME, c63 \o ab, <<>>, <<>>)>>, ns |-> <<>>, ar |-> <<R(c63 \o ab, TA, <<>>, <<>>, <<8,8,8,8>>)>>],
+  [q |-> <<Q(root, TNS)>>, an |-> <<R(root, TNS, ab, <<>>, <<>>), R(ab, TMX, root, <<>>, <<0>>)>>, ns |-> <<>>, ar |-> <<R(ab, TA, <<>>, <<>>, <<10,0,0,1>>)>>],
   [q |-> <<Q(l34, TPTR)>>, an |-> <<R(l34, TPTR, ab, <<>>, <<>>)>>, ns |-> <<R(ab, TNS, c63, <<>>, <<>>)>>, ar |-> <<>>] }
-GenNew == MCNew \cup { R(l34, TPTR, n255, <<>>, <<>>), R(c63, TTXT, <<>>, <<>>, <<2, 0, 255>>), R(ab, TSOA, b, ab, Z20),
+GenNew == MCNew \cup { R(root, TNS, ab, <<>>, <<>>), R(ab, TMX, root, <<>>, <<0>>), R(b, TSOA, root, ab, Z20), R(a, TCNAME, root, <<>>, <<>>),
+                       R(l34, TPTR, n255, <<>>, <<>>), R(c63, TTXT, <<>>, <<>>, <<2, 0, 255>>), R(ab, TSOA, b, ab, Z20),
                        R(n127, TNS, a, <<>>, <<>>), R(b, TAAAA, <<>>, <<>>, [i \in 1..16 |-> i * 3]) }
 GInit == \E m \in GenInit, c \in BOOLEAN : /\ w = EncMsg(m, c) /\ abs = m /\ edits = 0 /\ hist = <<>> /\ comp = c /\ init0 = m
 GNext == /\ edits < MaxEdits /\ edits' = edits + 1 /\ UNCHANGED <<comp, init0>>
